@@ -415,7 +415,7 @@ fn threshold_sweep(rec: &mut Rec, _ctx: &Ctx, t: u64, rng: &mut ChaCha20Rng) {
 
 pub fn run(ctx: &Ctx) -> Rec {
   let mut rec = par_run(ctx, "sharing", ctx.n(6000, 100_000), |rec, i, rng| case(rec, ctx, i, rng));
-  let tmax: u64 = (((if ctx.thorough() { 1400 } else { 320 }) as f64) * ctx.scale.min(1.0)).ceil() as u64;
+  let tmax: u64 = (((if ctx.thorough() { 1024 } else { 320 }) as f64) * ctx.scale.min(1.0)).ceil() as u64;
   rec.merge(par_run(ctx, "threshold-sweep", tmax, |rec, i, rng| threshold_sweep(rec, ctx, tmax - 1 - i, rng)));
   rec.note("threshold_sweep_max", json!(tmax));
   rec
